@@ -237,11 +237,17 @@ func (r *GraphemeReader) fill() error {
 		copy(newBuf, r.data[:r.end])
 		r.data = newBuf
 	}
-	n, err := r.src.Read(r.data[r.end:])
-	if n > 0 {
-		r.end += n
+	// A read of no bytes without an error means that nothing happened (io.Reader):
+	// it is neither data nor EOF, so read again.
+	for {
+		n, err := r.src.Read(r.data[r.end:])
+		if n > 0 {
+			r.end += n
+		}
+		if n > 0 || err != nil {
+			return err
+		}
 	}
-	return err
 }
 
 func isPrintableByte(b byte) bool {
